@@ -8,6 +8,8 @@ import (
 // CookieBinding is the cookie binder for cookie request body.
 type CookieBinding struct {
 	EnableSplitting bool
+	// Immutable makes the binder copy keys and values out of the request buffers
+	Immutable bool
 }
 
 // Name returns the binding name.
@@ -27,6 +29,9 @@ func (b *CookieBinding) Bind(req *fasthttp.Request, out any) error {
 
 		k := utils.UnsafeString(key)
 		v := utils.UnsafeString(val)
+		if b.Immutable {
+			k, v = string(key), string(val)
+		}
 		err = formatBindData(out, data, k, v, b.EnableSplitting, false)
 	})
 
@@ -40,4 +45,5 @@ func (b *CookieBinding) Bind(req *fasthttp.Request, out any) error {
 // Reset resets the CookieBinding binder.
 func (b *CookieBinding) Reset() {
 	b.EnableSplitting = false
+	b.Immutable = false
 }
